@@ -1,6 +1,7 @@
 package main
 
 import (
+	"go/types"
 	"fmt"
 	"regexp"
 	"strings"
@@ -60,6 +61,30 @@ func runC18(c *Ctx) {
 			c.obFollowH("every accepted RCPT is recorded", f, func(in ssa.Instruction) bool { return in == site }, []string{"st:Client.rcpts"}, describe(site.(ssa.Value))+"#2 == nil")
 		}
 	}
+	// the status callback belongs to the writer it was supplied for: it is stored into the dataCloser only from
+	// LMTPData's own parameter, never kept on the client
+	nCb := 0
+	for _, st := range c.Sites("st:dataCloser.statusCb") {
+		_, _, v := storedField(st)
+		nCb++
+		fn := funcName(st.Parent())
+		R.Ob(c.siteKey(st, "callback comes from this LMTPData call"), c.P.InstrPos(st), fn == "(*Client).LMTPData" && describe(v) == "param1" || isNilConst(v), "dataCloser.statusCb is set to "+describe(v)+" in "+fn+": a callback that outlives its LMTPData call fires for later transactions and hides their refusals from Close")
+	}
+	R.Ob("dataCloser.statusCb/stored by LMTPData", "-", nCb >= 1, "no store of the status callback found")
+	if cl := c.A.Named("Client"); cl != nil {
+		if stt, ok := cl.Underlying().(*types.Struct); ok {
+			kept := ""
+			for i := 0; i < stt.NumFields(); i++ {
+				if sig, ok := stt.Field(i).Type().Underlying().(*types.Signature); ok && sig.Params().Len() == 2 {
+					if p1, ok := sig.Params().At(1).Type().(*types.Pointer); ok && typeShort(p1) == "*SMTPError" {
+						kept = stt.Field(i).Name()
+					}
+				}
+			}
+			R.Ob("Client/keeps no status callback", "-", kept == "", "Client has a field "+kept+" holding a per-recipient status callback: it survives the transaction it was given for")
+		}
+	}
+
 	okMail, okClose := false, false
 	whereMail := ""
 	if f := c.A.Func("(*Client).Mail"); f != nil {
